@@ -93,6 +93,17 @@ where
     })
   }
 
+  /// A handle that emits into the same observers but does not share the subscribe / unsubscribe
+  /// hooks: closures stored in those hooks use it, so that a subject never owns itself.
+  pub(crate) fn emitter(&self) -> Subject<'a, Item> {
+    Subject {
+      observers: Arc::clone(&self.observers),
+      serial: Arc::clone(&self.serial),
+      on_subscribe: Arc::new(RwLock::new(None)),
+      on_unsubscribe: Arc::new(RwLock::new(None)),
+    }
+  }
+
   pub(crate) fn set_on_subscribe<F>(&self, f: F)
   where
     F: Fn(usize) + Send + Sync + 'a,
